@@ -814,10 +814,29 @@ class Controller:
             logger.warning(f'!!! no connection for {sender_address}')
             return
 
-        # Send the data to the host
-        # TODO: should fragment
-        acl_packet = hci.HCI_AclDataPacket(connection.handle, 2, 0, len(data), data)
-        self.send_hci_packet(acl_packet)
+        # Send the data to the host, fragmented so that each ACL packet fits the
+        # controller's data packet length (a full-size L2CAP PDU plus its header does
+        # not fit the 16-bit length of a single ACL packet)
+        max_length = (
+            self.le_acl_data_packet_length
+            if transport == PhysicalTransport.LE
+            else self.acl_data_packet_length
+        )
+        for offset in range(0, max(len(data), 1), max_length):
+            fragment = data[offset : offset + max_length]
+            self.send_hci_packet(
+                hci.HCI_AclDataPacket(
+                    connection.handle,
+                    (
+                        hci.HCI_ACL_PB_FIRST_FLUSHABLE
+                        if offset == 0
+                        else hci.HCI_ACL_PB_CONTINUATION
+                    ),
+                    0,
+                    len(fragment),
+                    fragment,
+                )
+            )
 
     def on_advertising_pdu(self, pdu: ll.AdvInd | ll.AdvExtInd) -> None:
         if isinstance(pdu, ll.AdvExtInd):
